@@ -1423,8 +1423,12 @@ class GaussianState(State):
         cov_D_phi = (cov + 1j * D_phi) / 2
 
         exponent = -(np.conj(mean) @ np.linalg.inv(cov_D_phi) @ mean) / 2
-        denominator = np.prod(1 - np.exp(1j * np_angles)) * np.sqrt(
-            np.linalg.det(cov_D_phi)
+        # NOTE: The eigenvalues of `cov_D_phi` have positive real parts, hence the
+        # product of their principal square roots is the continuous branch of the
+        # square root of the determinant, whereas `sqrt(det(...))` may pick up a sign
+        # for more than one mode.
+        denominator = np.prod(1 - np.exp(1j * np_angles)) * np.prod(
+            np.sqrt(np.linalg.eigvals(cov_D_phi))
         )
 
         return np.exp(exponent) / denominator
